@@ -660,4 +660,133 @@ v("H-P-flush-forget-helper", [(P, """        for task_id in finished:
 v("42f-flush-first-gather-not-awaited", [(P, "        with suppress(CancelledError):\n            await gather(\n                *self._meta_tasks_cancelled,", "        with suppress(CancelledError):\n            gather(\n                *self._meta_tasks_cancelled,")],
   {"C08": "R08.2"})
 
+# ---- mechanisms added with refactoring batch 6: each has a passing twin (P-...) and broken siblings that must still be reported
+APPLY_REG = """        if group_name in self._task_groups:
+            raise TaskGroupAlreadyExists(group_name)
+        self._task_groups.setdefault(group_name, TaskGroupRegister())
+        meta_tasks = self._group_meta_tasks_running.setdefault(
+            group_name, set()
+        )
+        meta_tasks.add(
+            create_task(
+                self._apply_spawner(
+                    group_name,
+                    func,
+                    args,
+                    kwargs,
+                    num,
+                    end_callback=end_callback,
+                    cancel_callback=cancel_callback,
+                )
+            )
+        )
+        return group_name
+"""
+REG_FLAG_HELPER = """    def _register_group(self, group_name: str, must_be_new: bool = True) -> None:
+        if must_be_new and group_name in self._task_groups:
+            raise TaskGroupAlreadyExists(group_name)
+        self._task_groups.setdefault(group_name, TaskGroupRegister())
+
+    def _start_meta_task(self, group_name: str, spawner: Any, /, *spawner_args: Any, **spawner_kwargs: Any) -> None:
+        meta_tasks = self._group_meta_tasks_running.setdefault(group_name, set())
+        meta_tasks.add(create_task(spawner(*spawner_args, **spawner_kwargs)))
+
+    def _get_running_task(self, task_id: int) -> Task[Any]:
+"""
+GRT = "    def _get_running_task(self, task_id: int) -> Task[Any]:\n"
+
+
+def apply_new(reg_call: str, args: str = "group_name, func, args, kwargs, num") -> str:
+    return f"""        {reg_call}
+        self._start_meta_task(
+            group_name, self._apply_spawner, {args},
+            end_callback=end_callback, cancel_callback=cancel_callback,
+        )
+        return group_name
+"""
+
+
+v("P-flag-param-and-callable-param", [(P, APPLY_REG, apply_new("self._register_group(group_name)")), (P, GRT, REG_FLAG_HELPER)],
+  {"C01": "ok", "C04": "ok", "C09": "ok", "C10": "ok", "C07": "ok", "C08": "ok"})
+v("P-flag-param-explicit-true", [(P, APPLY_REG, apply_new("self._register_group(group_name, must_be_new=True)")), (P, GRT, REG_FLAG_HELPER)],
+  {"C09": "ok", "C10": "ok"})
+v("flag-param-false-skips-duplicate-check", [(P, APPLY_REG, apply_new("self._register_group(group_name, must_be_new=False)")), (P, GRT, REG_FLAG_HELPER)],
+  {"C09": "R09", "C10": "R10.4"})
+v("flag-param-default-false", [(P, APPLY_REG, apply_new("self._register_group(group_name)")), (P, GRT, REG_FLAG_HELPER.replace("must_be_new: bool = True", "must_be_new: bool = False"))],
+  {"C09": "R09", "C10": "R10.4"})
+v("flag-param-test-inverted", [(P, APPLY_REG, apply_new("self._register_group(group_name)")), (P, GRT, REG_FLAG_HELPER.replace("if must_be_new and group_name", "if not must_be_new and group_name"))],
+  {"C09": "R09", "C10": "R10.4"})
+v("callable-param-one-invocation-too-many", [(P, APPLY_REG, apply_new("self._register_group(group_name)", "group_name, func, args, kwargs, num + 1")), (P, GRT, REG_FLAG_HELPER)],
+  {"C04": "R04"})
+v("direct-call-one-invocation-too-many", [(P, "                    kwargs,\n                    num,\n                    end_callback=end_callback,", "                    kwargs,\n                    num + 1,\n                    end_callback=end_callback,")],
+  {"C04": "R04.3w"})
+v("callable-param-other-group", [(P, APPLY_REG, apply_new("self._register_group(group_name)", '"apply", func, args, kwargs, num')), (P, GRT, REG_FLAG_HELPER)],
+  {"C10": "R10"})
+v("callable-param-spawner-called-twice", [(P, APPLY_REG, apply_new("self._register_group(group_name)")),
+                                          (P, GRT, REG_FLAG_HELPER.replace("        meta_tasks.add(create_task(spawner(*spawner_args, **spawner_kwargs)))\n",
+                                                                           "        meta_tasks.add(create_task(spawner(*spawner_args, **spawner_kwargs)))\n        meta_tasks.add(create_task(spawner(*spawner_args, **spawner_kwargs)))\n"))],
+  {"C04": "R04"})
+
+FLUSH_POPS = """        for task_id in finished:
+            self._tasks_ended.pop(task_id, None)
+            self._tasks_cancelled.pop(task_id, None)
+"""
+
+
+def flush_alias(a: str, b: str) -> str:
+    return f"""        pop_ended = {a}
+        pop_cancelled = {b}
+        for task_id in finished:
+            pop_ended(task_id, None)
+            pop_cancelled(task_id, None)
+"""
+
+
+v("P-bound-method-alias", [(P, FLUSH_POPS, flush_alias("self._tasks_ended.pop", "self._tasks_cancelled.pop"))], {"C13": "ok", "C02": "ok", "C03": "ok", "C12": "ok"})
+v("bound-method-alias-of-running-registry", [(P, FLUSH_POPS, flush_alias("self._tasks_ended.pop", "self._tasks_running.pop"))], {"C13": "R13"})
+v("bound-method-alias-same-registry-twice", [(P, FLUSH_POPS, flush_alias("self._tasks_ended.pop", "self._tasks_ended.pop"))], {"C13": "R13"})
+
+APPLY_TRY = """            try:
+                coroutine = func(*args, **kwargs)
+            except Exception as e:
+                # Probably something wrong with the function arguments.
+                log.exception(
+                    "%s occurred in group '%s' while trying to "
+                    "create coroutine: %s(*%s, **%s)",
+                    str(e.__class__.__name__),
+                    group_name,
+                    func.__name__,
+                    repr(args),
+                    repr(kwargs),
+                )
+                # TODO: Consider returning instead of continuing
+                # https://github.com/daniil-berg/asyncio-taskpool/issues/5
+                continue
+"""
+MARKER_HELPER = """    @staticmethod
+    def _create_apply_coroutine(group_name: str, func: Any, args: Any, kwargs: Any) -> Any:
+        try:
+            return func(*args, **kwargs)
+        except Exception as e:
+            log.exception("%s occurred in group '%s' while trying to create coroutine: %s(*%s, **%s)",
+                          str(e.__class__.__name__), group_name, func.__name__, repr(args), repr(kwargs))
+            return _NOT_CREATED
+
+    async def _apply_spawner(
+"""
+MARKER_DEF = ("log = logging.getLogger(__name__)\n", "log = logging.getLogger(__name__)\n\n_NOT_CREATED: Any = object()\n")
+
+
+def marker_use(test: str) -> str:
+    return f"""            coroutine = self._create_apply_coroutine(group_name, func, args, kwargs)
+{test}"""
+
+
+MK = [(P, MARKER_DEF[0], MARKER_DEF[1]), (P, "    async def _apply_spawner(\n", MARKER_HELPER)]
+v("P-marker-object-return", MK + [(P, APPLY_TRY, marker_use("            if coroutine is _NOT_CREATED:\n                continue\n"))],
+  {"C04": "ok", "C12": "ok", "C01": "ok", "C07": "ok"})
+v("marker-object-test-dropped", MK + [(P, APPLY_TRY, marker_use(""))], {"C04": "R04", "C12": "R12"})
+v("marker-object-test-inverted", MK + [(P, APPLY_TRY, marker_use("            if coroutine is not _NOT_CREATED:\n                continue\n"))], {"C04": "R04"})
+v("marker-object-returns-instead-of-continue", MK + [(P, APPLY_TRY, marker_use("            if coroutine is _NOT_CREATED:\n                return\n"))], {"C04": "R04"})
+
 VARIANTS = V
